@@ -534,7 +534,7 @@ def run(tier: str, seed: int) -> Result:
     diff["interrupt_sweep_runs"] = interrupt_sweep(res)
     diff["benign_reentrancy_runs"] = benign_sweep(res)
     total = Stats()
-    cfgs: list[tuple[bool, str, tuple[str, ...], int, int]] = []
+    cfgs: list[Any] = []
     q = tier == "quick"
     cfgs.append((False, "init", ("10.0.0.1",), 4 if q else 5, 1))
     cfgs.append((False, "init", ("dev.example.com",), 4 if q else 5, 1 if q else 2))
@@ -543,21 +543,33 @@ def run(tier: str, seed: int) -> Result:
         cfgs.append((False, s, ("10.0.0.1",), 3 if q else 4, 1 if q else 2))
     for s in ("opened", "hswait", "hello_sent", "req_pending"):
         cfgs.append((True, s, ("10.0.0.1",), 3 if q else 4, 1 if q else 2))
+    # the socket's connect() call itself raises, and not an OSError (OverflowError for a port above 65535; the resolver's UnicodeError for
+    # an over-long label is of the same kind): still a classified error, still bounded
+    cfgs.append((False, "init", ("10.0.0.1",), 3, 1, "weird-connect"))
+    cfgs.append((False, "init", ("10.0.0.1", "10.0.0.2"), 3, 0 if q else 1, "weird-connect"))
     budget = 110.0 if q else 1800.0
     t_end = time.monotonic() + budget
     per_cfg = []
-    for i, (noise, sd, addrs, depth, bound) in enumerate(cfgs):
+    from .. import world as _world
+
+    for i, cfg in enumerate(cfgs):
+        noise, sd, addrs, depth, bound = cfg[:5]
+        opts = cfg[5] if len(cfg) > 5 else ""
         left = max(5.0, (t_end - time.monotonic()) / (len(cfgs) - i))
-        st = explore_parallel(factory, (noise, sd, addrs), depth=depth, bound=bound, budget_s=left, split_depth=1)
-        per_cfg.append({"noise": noise, "seed_state": sd, "addresses": list(addrs), "depth": depth, "deviation_bound": bound,
+        _world.CONNECT_EXC[0] = OverflowError("connect(): port must be 0-65535.") if opts == "weird-connect" else None
+        try:
+            st = explore_parallel(factory, (noise, sd, addrs), depth=depth, bound=bound, budget_s=left, split_depth=1)
+        finally:
+            _world.CONNECT_EXC[0] = None
+        per_cfg.append({"noise": noise, "seed_state": sd, "addresses": list(addrs), "options": opts, "depth": depth, "deviation_bound": bound,
                         "executions": st.executions, "states": st.states, "time_capped": st.time_capped})
         for v in st.violations:
             clause = next((c for c in v["violated"] if c.startswith("C09")), None)
             if clause is None:
                 continue
             kind = ":".join(clause.split(":")[:3])[:80]
-            res.add(f"explore:{'noise' if noise else 'plain'}:{sd}:{','.join(addrs)}:{kind}", clause,
-                    {"harness": "lifecycle", "noise": noise, "seed_state": sd, "addresses": list(addrs), "choices": v["choices"],
+            res.add(f"explore:{'noise' if noise else 'plain'}:{sd}:{','.join(addrs)}{':' + opts if opts else ''}:{kind}", clause,
+                    {"harness": "lifecycle", "noise": noise, "seed_state": sd, "addresses": list(addrs), "opts": opts, "choices": v["choices"],
                      "violated": v["violated"], "observations": v["observations"]})
         total.merge(st)
     exc_classes = set()
@@ -618,6 +630,9 @@ def replay(rp: dict[str, Any]) -> bool:
         b = _run_seq(cfg, [x[1] if isinstance(x, list) else x for x in d["labels"][:nf]], nf)
         print("baseline classes:", (b or {}).get("classes"))
         return bool(r and b and r["classes"] == b["classes"] and not r["viol"])
+    from .. import world as _world
+
+    _world.CONNECT_EXC[0] = OverflowError("connect(): port must be 0-65535.") if d.get("opts") == "weird-connect" else None
     h = factory(d["noise"], d["seed_state"], tuple(d["addresses"]))
     w = h.fresh()
     try:
